@@ -87,9 +87,9 @@ func (e *Engine) ensureInit(pkg *ssa.Package) {
 		e.cur, e.stack, e.posStack = savedCur, savedStack, savedPos
 		e.TrackWrites = savedTrack
 	}()
-	st := &St{pc: e.S.True, heap: &Heap{over: map[ObjID]Value{}}, env: map[ssa.Value]Value{}}
+	st := &St{pc: e.S.True, heap: newHeap(), env: map[ssa.Value]Value{}}
 	e.CallFunc(st, initFn, nil, nil)
-	for id, v := range st.heap.over {
+	for id, v := range st.heap.all() {
 		e.base[id] = v
 		e.sharedObjs[id] = true
 	}
